@@ -222,7 +222,8 @@ def rule_r4(ctx):
         if not empties:
             rr.fail(f"C08-R4|{kind}|no-loop-check", f"Pending{kind}: the constructor never tests whether the loop stack is empty", what=what)
             continue
-        bad = [p for p in empties if p.outcome != "raise"]
+        # an IndexError on the empty stack is still a rejection (an exception), though not a clean one
+        bad = [p for p in empties if p.outcome != "raise" and not (p.outcome == "abort" and any(e[0] == "index-error" for e in p.events))]
         if bad:
             rr.fail(f"C08-R4|{kind}|accepted-outside-loop", f"Pending{kind}: `{kind.lower()}` with an empty loop stack does not raise [context: {short_ctx(bad[0], 100)}]", what=what)
         elif any(p.effects for p in empties):
